@@ -51,6 +51,7 @@ def cases(tier, seed):
                 if c["alg"]["kind"] in ("queue", "batch") else c)
                for sc, c in out]
     out += common.add_algs(common.park_scope(lvl), common.park_algs)
+    out += common.add_algs(common.park2_scope(lvl), common.park_algs)
     return common.rotate(out, seed)
 
 
@@ -62,7 +63,9 @@ def run(rep, tier, seed):
     cs = cases(tier, seed)
     # unit variant: same physical config in minutes
     extra = []
-    for sc, c in common.thin(cs, 25):
+    # (every S-park case, 1/25 of the others)
+    for sc, c in [x for x in cs if x[0] == "S-park"] + common.thin(
+            [x for x in cs if x[0] != "S-park"], 25):
         cc = dict(c)
         cfg = dict(c["cfg"])
         cfg["timestep"] = "minutes"
